@@ -74,21 +74,26 @@ theorem rsa_verify_key (P : Prims) (h : String) (pss : Bool) (s jwk : Json) (f :
 
 /-! ### EC keys: named curve, point and private value checked — signing, verifying, exchanging -/
 
-theorem ec_sign_key (P : Prims) (name h : String) (jwk : Json) (f : Bs → Bs → Option Bs)
-    (hf : family name = some (.ecdsa h)) (hs : sigLeaf P name jwk = some f) :
+theorem ec_sign_key (P : Prims) (name crv h : String) (jwk : Json) (f : Bs → Bs → Option Bs)
+    (hf : family name = some (.ecdsa crv h)) (hs : sigLeaf P name jwk = some f) :
     ∃ key, ecKeyOf P jwk = some key ∧ P.ecValid key.crv key.x key.y key.d = true ∧
       key.crv ∈ ["P-256", "P-384", "P-521", "secp256k1"] := by
   simp only [sigLeaf, hf] at hs
+  split at hs
+  · simp at hs
   split at hs
   · rename_i hfun key _ hk
     have := C01.ecKey_valid P jwk key hk
     exact ⟨key, hk, this.1, this.2.2⟩
   · simp at hs
 
-theorem ec_verify_key (P : Prims) (h : String) (s jwk : Json) (f : Bs → Bool) (hv : ecdsaVer P h s jwk = some f) :
+theorem ec_verify_key (P : Prims) (crv h : String) (s jwk : Json) (f : Bs → Bool) (hv : ecdsaVer P crv h s jwk = some f) :
     ∃ key, ecKeyOf P jwk = some key ∧ P.ecValid key.crv key.x key.y key.d = true ∧
       key.crv ∈ ["P-256", "P-384", "P-521", "secp256k1"] := by
-  simp only [ecdsaVer, Option.bind_eq_some_iff, Option.map_eq_some_iff] at hv
+  simp only [ecdsaVer] at hv
+  split at hv
+  · simp at hv
+  simp only [Option.bind_eq_some_iff, Option.map_eq_some_iff] at hv
   obtain ⟨_, _, key, hk, _⟩ := hv
   have := C01.ecKey_valid P jwk key hk
   exact ⟨key, hk, this.1, this.2.2⟩
